@@ -22,7 +22,14 @@ def qvec(rs, n, klass):
     if klass == 'repeated':
         return np.full(n, int(rs.integers(-2, 3)))
     if klass == 'big':
-        return rs.choice([-(1 << 16) - 1, 0, (1 << 16), (1 << 16) + 1], size=n)
+        # encoded pairs (N << 16) + S as used by the Fermi-Hubbard model; neighbouring S for N >= 4 are 1e-5-close in relative terms
+        pool = [[-(1 << 16) - 1, 0, (1 << 16), (1 << 16) + 1],
+                [(5 << 16) - 1, (5 << 16), (5 << 16) + 1, (4 << 16) + 1],
+                [(300 << 16) + 1, (300 << 16) + 2, (300 << 16), 0]][int(rs.integers(0, 3))]
+        out = rs.choice(pool, size=n)
+        if n >= 2 and pool[0] > (1 << 17) and rs.random() < 0.7:
+            out[0], out[1] = pool[0], pool[1]       # two large charges that differ by one on the same leg
+        return out
     raise ValueError(klass)
 
 
